@@ -7,6 +7,8 @@ PROPS = {
         tie=["ZipVerif.Tie.DateTime"],
         streams=["dos"],
         title="Timestamps convert to and from DOS format without loss or panic",
+        level_text="Lean 4 theorems over all 2^32 DOS words and all constructor arguments (unpack/pack mutually inverse, constructor accepts exactly the documented ranges, no-panic for every constructible value, calendar conversions mutually inverse); the model is tied to the source by regenerated translation of the four pure functions (Tie obligations) and by correspondence for the time-crate conversions",
+        level_note="Gregorian validity inside the `time` crate is a parameter (modelled as Spec calendar, validated by correspondence over every date 1975-2112); translator and harness are trusted as stated in DESIGN.md section 7",
     ),
 }
 
